@@ -8,7 +8,7 @@ PROPERTY = 'C12'
 LEVEL = 'exploration'
 WORKERS = 3
 RULE = ('grammars `cmd PRE(v1|...|vn)[SUF] next` (also through a definition, without PRE when a suffix is present, '
-        'and two such words in sequence) whose value sets are drawn from random tries with prefix chains '
+        'two such words in sequence, and two alternative words of the same shape) whose value sets are drawn from random tries with prefix chains '
         '(2-8 values, length 1-6) are compiled by the real binary and run in a real bash: every value typed as a '
         'complete word must be recognised (the next position offers `next`), every non-value must not, and every '
         'proper prefix of a value typed as the cursor word must offer exactly the values extending it. The case '
@@ -51,7 +51,7 @@ def make_case(r):
     vals = value_set(r)
     r.shuffle(vals)          # the order in which the grammar lists the values must not matter
     pre = r.choice(PRES)
-    shape = r.choice(['plain', 'plain', 'def', 'suffix', 'two'])
+    shape = r.choice(['plain', 'plain', 'def', 'suffix', 'two', 'twins'])
     suf = ''
     V = alt(*[lit(v) for v in vals])
     stmts = []
@@ -71,6 +71,14 @@ def make_case(r):
             pre = ''
             e = seq(('word', (V, lit(suf))), lit('next'))
         words_spec = [(pre, vals, suf)]
+    elif shape == 'twins':
+        # two alternative words of the same table shape (the second value set is the first one with its letters
+        # renamed): emitters share one function per shape and must still keep each word's own texts
+        ren = dict(zip('abcd', r.sample('wxyz', 4)))
+        vals2 = [''.join(ren[c] for c in v) for v in vals]
+        pre2 = r.choice([p for p in PRES if p != pre and not p.startswith(pre) and not pre.startswith(p)])
+        e = seq(alt(('word', (lit(pre), V)), ('word', (lit(pre2), alt(*[lit(v) for v in vals2])))), lit('next'))
+        words_spec = [(pre, vals, ''), (pre2, vals2, '')]
     else:
         vals2 = value_set(r)
         r.shuffle(vals2)
@@ -163,7 +171,11 @@ def run_case(stmts, words_spec, shape, qs, acc, origin):
 def run_job(job, acc):
     r = random.Random(job[1])
     stmts, words_spec, shape = make_case(r)
-    qs = queries_for(r, words_spec)
+    if shape == 'twins':
+        qs = queries_for(r, words_spec[:1]) + queries_for(r, words_spec[1:])
+        r.shuffle(qs)
+    else:
+        qs = queries_for(r, words_spec)
     if len(qs) > 34:
         keep = [q for q in qs if q[1] == 'value-recognised']
         rest = [q for q in qs if q[1] != 'value-recognised']
